@@ -24,8 +24,8 @@ ASSUMPTIONS = [
     'more hops; closers: none, one equality filter, one ordering',
     'identifiers are reported, not enforced: loader-built initial states in which two live instances agree on the declared '
     'identifier Id (schemas a, b, c, d, e, f, h); in every state where that holds the operator menu also has equality filters '
-    'covering the identifier (where_eq(Id=v); where_eq(ID=v, S=..); the dict {id: v, n: ..}), alone and combined with every other '
-    'operator, and navigations ending in such a class get the closer where_eq(Id=v)',
+    'covering the identifier (where_eq(Id=v); where_eq(ID=v, S=..); the dict {id: v, n: ..}), alone and paired (either order) '
+    'with every other operator, and navigations ending in such a class get the closer where_eq(Id=v)',
     'subtype navigation is compared only when at most one subtype instance is related (the statement says "the one")',
 ]
 EXTRA = [('N', 'integer'), ('S', 'string')]
@@ -158,12 +158,6 @@ class QueryModel(c02.CappedModel):
                     ids.append(v)
             for v in ids[:2] + [None]:
                 out.append(['eq', {r: v}])
-        # equality filters that cover the declared identifier (I1 = Id), in states where live instances agree on it (the
-        # library reports, not enforces, identifiers): alone, in another letter case with one more attribute, as a dict
-        for v in self.shared_ids(w, kind)[:1]:
-            out.append(['eq', {'Id': v}])
-            out.append(['eq', {'ID': v, 'S': 'a'}])
-            out.append(['eqdict', {'id': v, 'n': 0}])
         out.append(['lam', 'N', '==', 1])
         out.append(['lam', 'S', '<', 'b'])
         out.append(['ord', ['N'], False])
@@ -171,6 +165,16 @@ class QueryModel(c02.CappedModel):
         out.append(['ord', ['N'], True])
         out.append(['ord', ['N', 'S'], True])
         out.append(['ord', ['S'], True])
+        return out
+
+    def id_atoms(self, w, kind):
+        '''Equality filters that cover the declared identifier (I1 = Id), in states where live instances agree on it (the
+        library reports, not enforces, identifiers): alone, in another letter case with one more attribute, as a dict.'''
+        out = []
+        for v in self.shared_ids(w, kind)[:1]:
+            out.append(['eq', {'Id': v}])
+            out.append(['eq', {'ID': v, 'S': 'a'}])
+            out.append(['eqdict', {'id': v, 'n': 0}])
         return out
 
     def shared_ids(self, w, kind):
@@ -289,9 +293,11 @@ class QueryModel(c02.CappedModel):
         for kind in self.schema.kinds():
             pool = list(w.ref.order[kind])
             atoms = self.atoms(w, kind)
+            ida = self.id_atoms(w, kind)
             seqs = [[]]
             for n in range(1, maxops + 1):
-                seqs += [list(p) for p in itertools.product(atoms, repeat=n)]
+                # (the identifier filters take part in the sequences of up to two operators)
+                seqs += [list(p) for p in itertools.product(atoms + (ida if n <= 2 else []), repeat=n)]
             spell = [kind, kind.lower(), kind.upper()]
             for qi, seq in enumerate(seqs):
                 exp = self.ref_apply(w, pool, seq)
